@@ -3,7 +3,7 @@ import re
 
 from ..facts import AnchorMissing, callee_def, op_place, op_const, is_bare
 from ..util import (ends, site, fn_key, callee_method, require, has_call, has_field, find_dispatch, edge_is_true,
-                    direct_place, edges_where, unreachable_without_edges)
+                    direct_place, edges_where, unreachable_without_edges, transitive_closures)
 from ..widths import norm
 
 EXPLANATION = (
@@ -42,9 +42,12 @@ def check(ctx):
     ctx.rule("C20-D", ":nth-child counts element siblings matching its selector up to the element itself")
     ctx.rule("C20-E", "the parent links the combinators walk are kept by the (vendored) DOM builder: every TreeSink operation "
              "that moves children to another node re-points their parent link, before the source list is emptied")
+    ctx.rule("C20-F", "the coefficients of :nth-child(an+b) are signed: every coefficient that parse_nth_child_args reads from "
+             "digits is the parsed number multiplied by the value of the sign parsed immediately before those digits")
     ctx.facts.upvar_depth = 8  # captured selector payloads are compared in full
     try:
-        for rid, fn in (("C20-A", rule_a), ("C20-B", rule_b), ("C20-C", rule_c), ("C20-D", rule_d), ("C20-E", rule_e)):
+        for rid, fn in (("C20-A", rule_a), ("C20-B", rule_b), ("C20-C", rule_c), ("C20-D", rule_d), ("C20-E", rule_e),
+                        ("C20-F", rule_f)):
             ctx.guard(rid, fn)
     finally:
         ctx.facts.upvar_depth = 2
@@ -268,20 +271,38 @@ def rule_b(ctx):
 def rule_c(ctx):
     F = ctx.facts
     da = F.one("css::StyleData::do_add_css")
-    pushes = da.calls(lambda cd, t: callee_method(t) == "push" and "Ruleset" in " ".join((t.get("callee") or {}).get("targs") or []))
+    # the sink: `rules.push(Ruleset{..})` inside the selector loop, or `rules.extend(selectors.into_iter().map(|s| Ruleset{..}))`
+    def is_sink(cd, t):
+        return callee_method(t) in ("push", "extend") and "Ruleset" in " ".join((t.get("callee") or {}).get("targs") or [])
+    pushes = da.calls(is_sink)
     if ctx.check(len(pushes) == 1, "C20-C", "do_add_css:one-ruleset-push", da.span, da.id, "%d pushes" % len(pushes)):
         pbb, pt = pushes[0]
-        lits = [(x, st) for x in da.reachable() for st in da.stmts(x) if (st.get("rv") or {}).get("agg") == "adt" and ends((st.get("rv") or {}).get("adt"), "Ruleset")]
+        lits = [(b2, x, st) for b2 in [da] + [c2 for _x, c2 in transitive_closures(F, da)] for x in b2.reachable() for st in b2.stmts(x)
+                if (st.get("rv") or {}).get("agg") == "adt" and ends((st.get("rv") or {}).get("adt"), "Ruleset")]
         okc = len(lits) == 1
         if okc:
-            rv = lits[0][1]["rv"]
-            sel = norm(da.canon(rv["ops"][rv["fields"].index("selector")]))
-            sty = norm(da.canon(rv["ops"][rv["fields"].index("styles")]))
-            okc = "next(" in sel and "IntoIter" in sel and "clone(" in sty and "styles_from_properties" in sty
-            ctx.check(okc, "C20-C", "do_add_css:ruleset=(selector of the list, the rule's declarations)", lits[0][1]["span"], da.id,
+            lb, lx, lst = lits[0]
+            rv = lst["rv"]
+            sel = norm(lb.canon(rv["ops"][rv["fields"].index("selector")]))
+            sty = norm(lb.canon(rv["ops"][rv["fields"].index("styles")]))
+            if lb is da:
+                okc = callee_method(pt) == "push" and "next(" in sel and "IntoIter" in sel
+            else:
+                # the closure maps each selector of the list: it is the argument of Iterator::map over rule.selectors'
+                # into_iter, the map is what `extend` consumes, the literal is its result on every path
+                arg = norm(da.canon(pt["args"][1]))
+                okc = callee_method(pt) == "extend" and sel in ("arg2", "self") and arg.startswith("Iterator::map(") and \
+                    "into_iter(" in arg and ".selectors)" in arg and \
+                    not any(lb.term(x)["k"] == "switch" for x in lb.reachable())
+            okc = okc and "clone(" in sty and "styles_from_properties" in sty
+            ctx.check(okc, "C20-C", "do_add_css:ruleset=(selector of the list, the rule's declarations)", lst["span"], lb.id,
                       "selector %s, styles %s" % (sel[:90], sty[:90]))
+        else:
+            ctx.violation("C20-C", "do_add_css:ruleset=(selector of the list, the rule's declarations)", da.span, da.id,
+                          "%d Ruleset constructions" % len(lits))
         # no selector of the list is skipped: the selector loop is a plain into_iter, the push is on every path of its body
-        bad = [callee_method(t) for _bb, t in da.calls() if callee_method(t) in ("skip", "take", "filter", "filter_map", "step_by", "rev", "nth", "last", "find")]
+        bad = [callee_method(t) for _bb, t in da.calls() if callee_method(t) in ("skip", "take", "filter", "filter_map", "step_by", "rev", "nth", "last", "find",
+                                                                                  "skip_while", "take_while", "map_while", "flat_map")]
         ctx.check(not bad, "C20-C", "do_add_css:every-selector-of-the-list", da.span, da.id, "calls %s" % bad)
         conds = []
         for (a, s) in da.cdeps_transitive(pbb):
@@ -308,6 +329,39 @@ def rule_c(ctx):
         for bb, t in merges:
             ctx.check(unreachable_without_edges(cs, bb, cut), "C20-C", "computed_style:rule-applies-iff-selector-matches", t["span"], cs.id,
                       "a sheet rule's declarations are merged without its selector having matched")
+
+
+def rule_f(ctx):
+    """`-2n+5` must not become `2n+5`: a structural necessary condition of "exactly the elements CSS designates" that
+    lives in the parser (the matcher's arithmetic on a and b stays undecided)."""
+    import re
+    F = ctx.facts
+    b = F.one("css::parser::parse_nth_child_args")
+    n = 0
+    for _x, cb in transitive_closures(F, b):
+        for x in sorted(cb.reachable()):
+            for st in cb.stmts(x):
+                rv = st.get("rv") or {}
+                if not (rv.get("agg") == "tuple" and len(rv.get("ops", [])) == 2 and all("i32" in str((op_place(o) or op_const(o) or {}).get("ty", "i32")) for o in rv["ops"])):
+                    continue
+                for which, o in zip("ab", rv["ops"]):
+                    at = cb.atoms(o)
+                    if not has_call(at, "from_str"):
+                        continue  # a constant (even / odd, the absent coefficient)
+                    n += 1
+                    mul = any(a[0] == "bin" and str(a[1]).startswith("Mul") for a in at)
+                    sgn = has_call(at, "Sign::val")
+                    c = cb.canon(o, depth=24)
+                    paired = True
+                    if "$" not in c:
+                        digits = re.findall(r"from_str\(&(?:<T>::unwrap_or\()?arg2\.(\d+)", c)
+                        signs = re.findall(r"Sign::val\(&arg2\.(\d+)\)", c)
+                        paired = len(digits) == 1 and len(signs) == 1 and int(signs[0]) == int(digits[0]) - 1
+                    ctx.check(mul and sgn and paired, "C20-F", "nth-child:%s=digits*sign@%s" % (which, fn_key(cb)), st["span"], cb.id,
+                              "coefficient %s of an+b is read from digits but is not (on every path) the parsed number times "
+                              "Sign::val of the sign parsed just before it: a negative step or offset would lose its sign; "
+                              "value: %s" % (which, c[:200]))
+    ctx.floor("C20-F", "coefficients of an+b read from digits", n, 4)
 
 
 def rule_d(ctx):
